@@ -103,6 +103,12 @@ def naming_cases(rnd, thorough):
             cases.append((IMPINJ, 2001007, t, r, b"1.0", 0, 1, "correct"))
             cases.append((IMPINJ, 2001007, t, r, b"1.0", 1, 0, "correct"))
             cases.append((IMPINJ, 2001007, t, r, b"1.0", 1, 1, "config-error"))
+    # a capabilities parameter without any ReceiveSensitivityTableEntry (not conformant, LLRP demands 1-n): the
+    # decoder's size check rejects it when the firmware string is short and accepts it when it is long; either
+    # way the name must follow the rule for the identity that IS reported (recorded, not judged otherwise)
+    for fw in (b"1.0", b"1.0.0.0.0.0.0.0.0"):
+        for t in (0, 1):
+            cases.append((IMPINJ, 2001002, t, bytes.fromhex("00ef1619fe16"), fw, 1, 1, "correct-nosens"))
     seen, res = set(), []
     for c in cases:
         if c not in seen:
@@ -145,91 +151,136 @@ def ip_n(ip):
     return p[0] << 24 | p[1] << 16 | p[2] << 8 | p[3]
 
 
-class Scenario:
-    """one autoDiscover run against scripted hosts 127.0.<k>.1 .. .6 (a /29)"""
+PORTNUM = {"S": 1, "O1": 2, "O2": 3, "O3": 4, "E": 0, "H": 0, "N": 0}   # model port numbers; 0 = no usable address
 
-    def __init__(self, k, hosts, async_limit, timeout_ms, max_ms, budget_ms, kind):
-        self.k, self.hosts, self.async_limit = k, hosts, async_limit
-        self.timeout_ms, self.max_ms, self.budget_ms, self.kind = timeout_ms, max_ms, budget_ms, kind
-        self.net = "127.0.%d.0/29" % k
+
+class Scenario:
+    """one autoDiscover run against scripted hosts 127.0.<k>.1 .. .6 (a /29) with an ORDERED list of registered
+    devices: dict(ip, port in S|O1|O2|E|H|N, state up|down|unknown, admin locked|unlocked, name bytes)"""
+
+    def __init__(self, k, hosts, devices, async_limit, timeout_ms, max_ms, budget_ms, kind, prefix=29):
+        self.k, self.hosts, self.devices, self.async_limit = k, hosts, devices, async_limit
+        self.timeout_ms, self.max_ms, self.budget_ms, self.kind, self.prefix = timeout_ms, max_ms, budget_ms, kind, prefix
+        self.net = "127.0.%d.0/%d" % (k, prefix)
 
     def go_req(self):
-        hs = []
-        for h in self.hosts:
-            reg = "none" if h["reg"] is None else "%s:%s" % (h["reg"][0], hx(h["reg"][1]))
-            hs.append("%s,%s,%s,%d,%d,%d,%s" % (h["ip"], h["mode"], reg, h["v"], h["m"], h["t"], hx(h["rid"])))
-        return "run %s %d %d %d %d %s" % (self.net, self.async_limit, self.timeout_ms, self.max_ms, self.budget_ms, ";".join(hs))
+        hs = ["%s,%s,%d,%d,%d,%s" % (h["ip"], h["mode"], h["v"], h["m"], h["t"], hx(h["rid"])) for h in self.hosts]
+        ds = ["%s|%s|%s|%s|%s" % (d["ip"], d["port"], d["state"], d["admin"], hx(d["name"])) for d in self.devices]
+        return "run %s %d %d %d %d %s %s" % (self.net, self.async_limit, self.timeout_ms, self.max_ms, self.budget_ms,
+                                             ";".join(hs), ";".join(ds) or "-")
 
     def oracle_req(self, rd):
-        devs = [h for h in self.hosts if h["reg"] is not None]
-        s = "run %d %d %s %d D %d" % (self.max_ms, self.timeout_ms, rd, SEND_TIMEOUT_MS, len(devs))
-        for h in devs:
-            s += " %d %s %s" % (ip_n(h["ip"]), h["reg"][0], hx(h["reg"][1]))
+        s = "run %d %d %s %d P 1 D %d" % (self.max_ms, self.timeout_ms, rd, SEND_TIMEOUT_MS, len(self.devices))
+        for d in self.devices:
+            s += " %d %d %s %s" % (ip_n(d["ip"]), PORTNUM[d["port"]], d["state"], hx(d["name"]))
         s += " H %d" % len(self.hosts)
         for h in self.hosts:
             s += " %d %s %d %d %d %s" % (ip_n(h["ip"]), MODEL_BEH[h["mode"]], h["v"], h["m"], h["t"], hx(h["rid"]))
-        addrs = [ip_n("127.0.%d.%d" % (self.k, i)) for i in range(1, 7)]
+        addrs = [ip_n("127.0.%d.%d" % (self.k, i)) for i in range(1, 2 ** (32 - self.prefix) - 1)]
         s += " W 1 %d %s" % (len(addrs), " ".join(str(a) for a in addrs))
         return s
 
     def to_json(self):
         d = dict(self.__dict__)
-        d["hosts"] = [dict(h, rid=hx(h["rid"]), reg=None if h["reg"] is None else [h["reg"][0], hx(h["reg"][1])]) for h in self.hosts]
+        d["hosts"] = [dict(h, rid=hx(h["rid"])) for h in self.hosts]
+        d["devices"] = [dict(x, name=hx(x["name"])) for x in self.devices]
         return d
 
     @staticmethod
     def from_json(d):
-        hosts = [dict(h, rid=unhx(h["rid"]), reg=None if h["reg"] is None else (h["reg"][0], unhx(h["reg"][1]))) for h in d["hosts"]]
-        return Scenario(d["k"], hosts, d["async_limit"], d["timeout_ms"], d["max_ms"], d["budget_ms"], d["kind"])
+        hosts = [dict(h, rid=unhx(h["rid"])) for h in d["hosts"]]
+        devices = [dict(x, name=unhx(x["name"])) for x in d.get("devices", [])]
+        return Scenario(d["k"], hosts, devices, d["async_limit"], d["timeout_ms"], d["max_ms"], d["budget_ms"], d["kind"], d.get("prefix", 29))
 
 
-def mk_host(k, i, mode, reg_state, rnd, same_name=True):
+def mk_host(k, i, mode, rnd):
     """host 127.0.k.i; reader ids are unique per (k, i) so that names never collide between scenarios"""
     v, m = rnd.choice([(IMPINJ, 2001002), (IMPINJ, 2001008), (IMPINJ, 2001007), (IMPINJ, 77), (50, 2001002), (17996, 1)])
     t = rnd.choice([0, 0, 1])
     rid = bytes([0, 0x16, k, i]) + bytes(rnd.getrandbits(8) for _ in range(rnd.choice([0, 2, 4])))
-    reg = None
-    if reg_state:
-        name = spec_name(v, m, t, rid) if same_name else ("other-%d-%d" % (k, i)).encode()
-        reg = (reg_state, name)
-    return dict(ip="127.0.%d.%d" % (k, i), mode=mode, reg=reg, v=v, m=m, t=t, rid=rid)
+    return dict(ip="127.0.%d.%d" % (k, i), mode=mode, v=v, m=m, t=t, rid=rid)
+
+
+_devctr = [0]
+
+
+def mk_dev(h, port, state, same_name=False, admin="unlocked"):
+    """a registered device on host h's ip; named as discovery would name the host, or uniquely otherwise"""
+    _devctr[0] += 1
+    name = spec_name(h["v"], h["m"], h["t"], h["rid"]) if same_name else ("dev-%s-%d" % (h["ip"], _devctr[0])).encode()
+    return dict(ip=h["ip"], port=port, state=state, admin=admin, name=name)
 
 
 def scenarios(rnd, thorough):
     out = []
     gen_budget = 60000
     k = 20
-    # fixed mixed scenario: every fast behaviour and every registration state
-    hosts = [mk_host(k, 1, "refuse", None, rnd), mk_host(k, 2, "correct", "up", rnd),
-             mk_host(k, 3, "correct", "down", rnd, same_name=False), mk_host(k, 4, "garbage", None, rnd),
-             mk_host(k, 5, "correct", None, rnd), mk_host(k, 6, "noident", None, rnd)]
-    out.append(Scenario(k, hosts, 3, PROBE_TIMEOUT_MS, gen_budget, gen_budget, "sets"))
+    # fixed: every fast behaviour and every registration state, one device per host on the scan port
+    H = [mk_host(k, 1, "refuse", rnd), mk_host(k, 2, "correct", rnd), mk_host(k, 3, "correct", rnd),
+         mk_host(k, 4, "garbage", rnd), mk_host(k, 5, "correct", rnd), mk_host(k, 6, "noident", rnd)]
+    D = [mk_dev(H[1], "S", "up", True), mk_dev(H[2], "S", "down")]
+    out.append(Scenario(k, H, D, 3, PROBE_TIMEOUT_MS, gen_budget, gen_budget, "sets"))
     k += 1
-    hosts = [mk_host(k, 1, "correct", "down", rnd), mk_host(k, 2, "close", "up", rnd, same_name=False),
-             mk_host(k, 3, "correct", "unknown", rnd, same_name=False), mk_host(k, 4, "correct", "up", rnd, same_name=False),
-             mk_host(k, 5, "hello-refused", "down", rnd), mk_host(k, 6, "config-error", None, rnd)]
-    out.append(Scenario(k, hosts, 10, PROBE_TIMEOUT_MS, gen_budget, gen_budget, "sets"))
-    fast = ["refuse", "correct", "correct", "correct", "garbage", "garbage-close", "close", "noident", "config-error",
-            "hello-refused", "correct-v11", "correct-errver"]
-    for _ in range(40 if thorough else 8):
+    H = [mk_host(k, 1, "correct", rnd), mk_host(k, 2, "close", rnd), mk_host(k, 3, "correct", rnd),
+         mk_host(k, 4, "correct", rnd), mk_host(k, 5, "hello-refused", rnd), mk_host(k, 6, "config-error", rnd)]
+    D = [mk_dev(H[0], "S", "down", True), mk_dev(H[1], "S", "up"), mk_dev(H[2], "S", "unknown"),
+         mk_dev(H[3], "S", "up"), mk_dev(H[4], "S", "down", True)]
+    out.append(Scenario(k, H, D, 10, PROBE_TIMEOUT_MS, gen_budget, gen_budget, "sets"))
+    # fixed: several registered devices per host on different ports, both list orders, duplicates, devices
+    # without a usable address; every host is a correct reader so that a dial is visible and would be reported
+    for order in ("as-listed", "reversed"):
         k += 1
-        hosts = []
-        for i in range(1, 7):
-            reg = rnd.choice([None, None, "up", "up", "down", "unknown"])
-            hosts.append(mk_host(k, i, rnd.choice(fast), reg, rnd, same_name=rnd.random() < 0.6))
-        out.append(Scenario(k, hosts, rnd.choice([1, 2, 3, 6, 50]), PROBE_TIMEOUT_MS, gen_budget, gen_budget, "sets"))
-    # time: hosts that stall where the code has a timer (version negotiation: 20 s). One worker, six such
-    # hosts, max duration 1 s: the first probe may use its allowance, no further probe may start.
+        H = [mk_host(k, i, "correct", rnd) for i in range(1, 7)]
+        D = [mk_dev(H[0], "S", "up", True), mk_dev(H[0], "O1", "down"),               # Up on scan port, other port listed later
+             mk_dev(H[1], "O1", "down"), mk_dev(H[1], "S", "up", True),               # other port listed first
+             mk_dev(H[2], "O1", "up"),                                                # only another port registered: scan port is dialled
+             mk_dev(H[3], "S", "up", True), mk_dev(H[3], "S", "up"), mk_dev(H[3], "O1", "up"), mk_dev(H[3], "O2", "unknown"),
+             mk_dev(H[4], "S", "down"), mk_dev(H[4], "O1", "up"), mk_dev(H[4], "O2", "up"),
+             mk_dev(H[5], "S", "up", True, admin="locked"), mk_dev(H[5], "N", "down"), mk_dev(H[5], "E", "down"), mk_dev(H[5], "H", "down")]
+        if order == "reversed":
+            D.reverse()
+        out.append(Scenario(k, H, D, 4, PROBE_TIMEOUT_MS, gen_budget, gen_budget, "sets"))
+    fast = ["refuse", "correct", "correct", "correct", "correct", "garbage", "garbage-close", "close", "noident", "config-error",
+            "hello-refused", "correct-v11", "correct-errver"]
+    for _ in range(60 if thorough else 12):
+        k += 1
+        H = [mk_host(k, i, rnd.choice(fast), rnd) for i in range(1, 7)]
+        D = []
+        for h in H:
+            for _ in range(rnd.choice([0, 0, 1, 1, 2, 3, 4])):
+                D.append(mk_dev(h, rnd.choice(["S", "S", "S", "O1", "O1", "O2", "E", "N", "H"]),
+                                rnd.choice(["up", "up", "up", "down", "down", "unknown"]),
+                                same_name=rnd.random() < 0.3, admin=rnd.choice(["unlocked", "unlocked", "locked"])))
+        rnd.shuffle(D)
+        out.append(Scenario(k, H, D, rnd.choice([1, 2, 3, 6, 50]), PROBE_TIMEOUT_MS, gen_budget, gen_budget, "sets"))
+        if rnd.random() < 0.5:      # the same registrations listed the other way round
+            k += 1
+            H2 = [dict(h, ip="127.0.%d.%s" % (k, h["ip"].split(".")[3]), rid=bytes([0, 0x16, k]) + h["rid"][3:]) for h in H]
+            ren = {}
+            D2 = []
+            for d in reversed(D):
+                i = int(d["ip"].split(".")[3])
+                h_old, h_new = H[i - 1], H2[i - 1]
+                nm = spec_name(h_new["v"], h_new["m"], h_new["t"], h_new["rid"]) if d["name"] == spec_name(h_old["v"], h_old["m"], h_old["t"], h_old["rid"]) \
+                    else d["name"] + b"-r"
+                D2.append(dict(d, ip=h_new["ip"], name=nm))
+            out.append(Scenario(k, H2, D2, rnd.choice([1, 3, 6]), PROBE_TIMEOUT_MS, gen_budget, gen_budget, "sets"))
+    # time: hosts that stall where the code has a timer of its own (version negotiation). One worker, a /28 of
+    # 14 such hosts, max duration 1 s: the probe in flight may use its allowance, no further probe may start, and
+    # the many addresses not yet handed out when the deadline passes must not keep the run alive (far more are
+    # left than the worker and the address channel's buffer can absorb).
     allowance = PROBE_TIMEOUT_MS + SEND_TIMEOUT_MS
-    k += 1
-    hosts = [mk_host(k, i, "stall-neg", None, rnd) for i in range(1, 7)]
-    out.append(Scenario(k, hosts, 1, PROBE_TIMEOUT_MS, 1000, 1000 + allowance + SLACK_MS, "time"))
+    for nworkers in (1, 2):
+        k += 1
+        H = [mk_host(k, i, "stall-neg", rnd) for i in range(1, 15)]
+        out.append(Scenario(k, H, [], nworkers, PROBE_TIMEOUT_MS, 1000, 1000 + allowance + SLACK_MS, "time", prefix=28))
     # time: one host that accepts and stays silent / stalls later, among well-behaved ones
     for mode in ["silent", "stall-caps"] + (["noclose", "partial-hello", "stall-payload"] if thorough else []):
         k += 1
-        hosts = [mk_host(k, 1, "refuse", None, rnd), mk_host(k, 2, "correct", None, rnd), mk_host(k, 3, mode, None, rnd),
-                 mk_host(k, 4, "garbage", None, rnd), mk_host(k, 5, "correct", "up", rnd), mk_host(k, 6, "refuse", None, rnd)]
-        out.append(Scenario(k, hosts, 6, PROBE_TIMEOUT_MS, 1000, 1000 + allowance + SLACK_MS + (30000 if thorough else 0), "time"))
+        H = [mk_host(k, 1, "refuse", rnd), mk_host(k, 2, "correct", rnd), mk_host(k, 3, mode, rnd),
+             mk_host(k, 4, "garbage", rnd), mk_host(k, 5, "correct", rnd), mk_host(k, 6, "refuse", rnd)]
+        D = [mk_dev(H[4], "S", "up", True)]
+        out.append(Scenario(k, H, D, 6, PROBE_TIMEOUT_MS, 1000, 1000 + allowance + SLACK_MS + (30000 if thorough else 0), "time"))
     return out
 
 
@@ -244,7 +295,11 @@ def parse_run(line):
     for x in [x for x in d.get("accepts", "").split(",") if x]:
         ip, n = x.split("=")
         acc[ip] = int(n)
-    return dict(status=f[0], elapsed=int(f[1]), reported=rep, accepts=acc, updated=d.get("updated", ""), released=d.get("released"))
+    oth = {}
+    for x in [x for x in d.get("other", "").split(",") if x]:
+        key, n = x.split("=")
+        oth[tuple(key.split("/"))] = int(n)
+    return dict(status=f[0], elapsed=int(f[1]), reported=rep, accepts=acc, other=oth, updated=d.get("updated", ""), released=d.get("released"))
 
 
 # ------------------------------------------------------------------ the check
@@ -273,7 +328,7 @@ def run(tier, seed, replay=None):
         rp = json.load(open(replay))
         ncases = [tuple([c[0], c[1], c[2], unhx(c[3]), unhx(c[4]), c[5], c[6], c[7]]) for c in rp.get("naming", [])]
         pmodes = [tuple(p) for p in rp.get("probes", [])]
-        scens = [Scenario.from_json(s) for s in rp.get("scenarios", [])]
+        scens = [Scenario.from_json(s) for s in rp.get("scenarios", []) if "devices" in s]
         probe_budget = rp.get("probe_budget_ms", PROBE_TIMEOUT_MS + SEND_TIMEOUT_MS + SLACK_MS)
     else:
         ncases = naming_cases(rnd, thorough)
@@ -295,7 +350,7 @@ def run(tier, seed, replay=None):
     # the timing model's prediction for single probes, both timer settings
     for (mode, beh, want) in pmodes:
         for rd in ("-", str(PROBE_TIMEOUT_MS)):
-            orc_reqs.append("run 1000 %d %s %d D 0 H 1 1 %s 25882 2001002 0 001625123456 W 1 1 1" % (PROBE_TIMEOUT_MS, rd, SEND_TIMEOUT_MS, beh))
+            orc_reqs.append("run 1000 %d %s %d P 1 D 0 H 1 1 %s 25882 2001002 0 001625123456 W 1 1 1" % (PROBE_TIMEOUT_MS, rd, SEND_TIMEOUT_MS, beh))
 
     longest = max([probe_budget] + [s.budget_ms for s in scens]) / 1000.0
     rc, go_lines, glog = vlib.run_harness(exe, "TestVerifC17", "\n".join(go_reqs) + "\n", timeout=int(longest + 240))
@@ -312,6 +367,7 @@ def run(tier, seed, replay=None):
     evals, nontriv, dist, samples = 0, set(), {}, []
 
     # ---------------- naming
+    nosens_obs = []
     gi = oi = 0
     for c in ncases:
         v, m, t, r, fw, caps, ident, mode = c
@@ -337,6 +393,10 @@ def run(tier, seed, replay=None):
             continue
         d = kv(g)
         name, dd = unhx(d["name"]), unhx(d["dd"])
+        if mode == "correct-nosens":
+            nosens_obs.append("fw=%r -> vendor=%s model=%s" % (fw, d["v"], d["m"]))
+            if (d["v"], d["m"], d["fw"]) == ("0", "0", "-"):
+                caps, o = 0, ""        # the capabilities reply did not decode: as if none had been received
         if not identified:
             res.violation("unidentified-reported", "a host that sent no Identification was reported as %r (%s)" % (name, go_reqs[gi - 1]), rd)
             continue
@@ -359,7 +419,9 @@ def run(tier, seed, replay=None):
         if d.get("host") != "1":
             res.violation("address-wrong", "reported host/port differ from the probed address: " + g, rd)
             continue
-        if o.startswith("ok"):
+        if o == "":
+            pass
+        elif o.startswith("ok"):
             od = kv(o)
             if unhx(od["name"]) != name or (od["v"], od["m"], od["fw"]) != (d["v"], d["m"], d["fw"]):
                 res.violation("model-differs:naming", "Go and the model differ though the rule holds: go=%s model=%s" % (g, o), rd, False)
@@ -413,11 +475,22 @@ def run(tier, seed, replay=None):
         r = parse_run(g)
         by_ip = {h["ip"]: h for h in s.hosts}
         nviol = len(res.violations)
-        # (a) registered and operating => never dialled (judged even if the run blocked: accepts were read first)
+        # (a) registered and operating => never dialled (judged even if the run blocked: accepts were read first).
+        # An address is host AND port: what counts are the devices registered at exactly (host, scan port);
+        # if there are several, the demand is unambiguous only when all of them are Up.
         for h in s.hosts:
-            if h["reg"] is not None and h["reg"][0] == "up" and r["accepts"].get(h["ip"], 0) > 0:
-                res.violation("registered-up-probed", "address %s of a registered device in state Up was dialled %d time(s)" % (
-                    h["ip"], r["accepts"][h["ip"]]), rd)
+            at = [d for d in s.devices if d["ip"] == h["ip"] and d["port"] == "S"]
+            if at and all(d["state"] == "up" for d in at) and r["accepts"].get(h["ip"], 0) > 0:
+                res.violation("registered-up-probed", "address %s:<scan port> of a registered device in state Up was dialled %d time(s); registered devices on that host, in Devices() order: %s" % (
+                    h["ip"], r["accepts"][h["ip"]],
+                    ", ".join("%s@%s/%s/%s" % (d["name"].decode("latin1"), d["port"], d["state"], d["admin"]) for d in s.devices if d["ip"] == h["ip"])), rd)
+        for (ip, pk), n in r["other"].items():
+            if n > 0:
+                at = [d for d in s.devices if d["ip"] == ip and d["port"] == pk]
+                if at and all(d["state"] == "up" for d in at):
+                    res.violation("registered-up-probed", "address %s:<port %s> of a registered device in state Up was dialled %d time(s)" % (ip, pk, n), rd)
+                else:
+                    res.violation("model-differs:run", "a port other than the scan port was dialled: %s/%s %d time(s)" % (ip, pk, n), rd, False)
         # (b) only hosts that identified themselves are reported, under the name the rule gives
         for ip, names in r["reported"].items():
             h = by_ip.get(ip)
@@ -480,7 +553,10 @@ def run(tier, seed, replay=None):
              "few ids + all (id type, reader id of length 0..12: zeros, 0xFF, random) x few (vendor,model) + random combinations + firmware variants + "
              "no-capabilities/no-identification; distinct by the full tuple, non-trivial iff the reader id is non-empty and an Identification is sent. "
              "probe: one scripted misbehaviour each (distinct by behaviour, all non-trivial). run: autoDiscover on a /29 of scripted loopback hosts with a "
-             "registered-device list (distinct by the full scenario).",
+             "mocked SDK device list given in order: 0..4 registered devices per host on the scan port / other ports (with connection-counting "
+             "listeners) / without usable address, states Up/Down/Unknown, locked/unlocked, same or different name, both list orders, duplicates "
+             "(distinct by the full scenario).",
         samples=samples, input_distribution=dist, traces_validated_against_impl=evals,
-        probe_observations=probe_obs, trusted_base=res.assumptions)
+        probe_observations=probe_obs, capabilities_without_sensitivity_entries=sorted(set(nosens_obs)),
+        trusted_base=res.assumptions)
     return res.finish()
